@@ -105,6 +105,8 @@ class Expect:
         self.method = method
         self.unordered = unordered     # bundle elements may come in any order
         self.optional = False          # the packets may also be absent altogether
+        self.alt_messages = None       # accepted alternative spelling (counted)
+        self.alt_counter = None
 
     def messages(self):
         out = []
@@ -331,16 +333,32 @@ def _node(op, env):
             pos[pname] = (k, chans)
             k += chans
         out = []
+        asis = []          # the same, negative indices treated the way sclang does
+        negative = False
         for name, off, val in _pairs(op['args'], 3):
             if name not in pos:
                 continue
             idx, chans = pos[name]
-            if not 0 <= off < chans:
+            if off < 0:
+                # OBSERVATION, outside the property: a negative index is not an
+                # element of the array, but the library (like sclang) only
+                # tests the upper end and addresses the preceding control(s).
+                # Both spellings are accepted; the second one is counted.
+                negative = True
+                asis.append(idx + off)
+                asis.append(nums(val[:chans - off]) if isinstance(val, list) else num(val))
                 continue
-            out.append(idx + off)
-            out.append(nums(val[:chans - off]) if isinstance(val, list) else num(val))
+            if not off < chans:
+                continue
+            pair = [idx + off,
+                    nums(val[:chans - off]) if isinstance(val, list) else num(val)]
+            out += pair
+            asis += pair
         e = Expect([msg('/n_set', nid, *out)], method='Synth.seti')
         e.optional = not out          # nothing to set: an empty /n_set or nothing
+        if negative:
+            e.alt_messages = [['/n_set', nid, *asis]]
+            e.alt_counter = 'observed_seti_negative_offset_addresses_neighbour'
         return e
     if m == 'get':
         return Expect([msg('/s_get', nid, op['index'])], method='Synth.get')
